@@ -212,5 +212,13 @@ Definition print_set_r (P : params) (S : import_set) : perr + str :=
       end
   end.
 
+(*  pretty_print(params, allow_conflicts=True)  (what __repr__ uses): no conflict check  *)
+Definition print_set_allow_conflicts (P : params) (S : import_set) : perr + str :=
+  let sts := get_statements (separate_from_imports P) S in
+  match choose_column P sts with
+  | inl e => inl e
+  | inr col => inr (concat (map (pp P col) sts))
+  end.
+
 Definition print_set (P : params) (S : import_set) : option str :=
   match print_set_r P S with inr s => Some s | inl _ => None end.
